@@ -374,9 +374,11 @@ class CallMixin:
         ln = getattr(node, "lineno", None)
         env0 = SpecEnv(self.eng, names, st.heap, st.heap, fx=self)
         try:
-            ctext = ast.unparse(node.func) if isinstance(node, ast.Call) else None
+            ctext = (ast.unparse(node.func) if isinstance(node, ast.Call) else
+                     "await" if isinstance(node, ast.Await) else "yield" if isinstance(node, ast.Yield) else None)
         except Exception:
             ctext = None
+        st.ghost["$callargs"] = (tuple(pos), star, dstar, tuple(sorted(kws.items(), key=lambda kv: kv[0])))
         for r in self.contract.labels.get("site_assumes", {}).get(ctext, []):
             st.assume(self.spec_env(st).formula(r))
         for i, r in enumerate(c.requires):
@@ -395,6 +397,7 @@ class CallMixin:
                 res_p = fresh_v("r_" + short.replace(".", "_"))
                 ps.assume(ps.heap.sel("$alloc", res_p))
                 envp = SpecEnv(self.eng, names, ps.heap, ps.heap.copy(), result=res_p, fx=self)
+                envp.params = set(names)
                 for p in c.post:
                     ps.assume(envp.formula(p))
                 if c.xpost is not None:
@@ -403,6 +406,7 @@ class CallMixin:
                     xs.assume(smt.subclass(smt.typeof(exc), self.eng.ct.cls("BaseException")))
                     xs.assume(xs.heap.sel("$alloc", exc))
                     envx = SpecEnv(self.eng, names, xs.heap, xs.heap.copy(), exc=exc, fx=self)
+                    envx.params = set(names)
                     dead = False
                     for p in c.xpost:
                         fml = z3.simplify(envx.formula(p))
@@ -428,6 +432,7 @@ class CallMixin:
             res = f(*[names[p] for p in params])
         else:
             res = fresh_v("r_" + short.replace(".", "_"))
+        st.ghost["$res:" + cname] = res
         if c.modifies == "*":
             # visible-state discipline: object invariants must hold when unknown code may run
             if self.contract.inv_exit and not self.contract.labels.get("noinv@" + short):
@@ -462,6 +467,7 @@ class CallMixin:
             xs.assume(smt.subclass(smt.typeof(exc), self.eng.ct.cls("BaseException")))
             xs.assume(xs.heap.sel("$alloc", exc))
             envx = SpecEnv(self.eng, names, xs.heap, old, exc=exc, fx=self)
+            envx.params = set(names)
             dead = False
             for p in c.xpost:
                 fml = z3.simplify(envx.formula(p))
@@ -485,6 +491,7 @@ class CallMixin:
             ea.old = old
             st.assume(ea.formula(r))
         envn = SpecEnv(self.eng, names, st.heap, old, result=res, fx=self)
+        envn.params = set(names)
         for p in c.post:
             st.assume(envn.formula(p))
         if c.raw_post:
